@@ -185,6 +185,7 @@ var components = []string{"gas-used", "receipt-status", "receipt-gas", "receipt-
 	"logs", "logs-bloom", "utxo-outputs", "key-images", "special-txs", "candidates", "state-hash", "receipt-hash"}
 
 var postComponents = []string{"trie-root", "post-candidates", "validators", "post-state-hash", "height"}
+var postComponentsAnyMode = []string{"post-candidates", "validators", "post-state-hash", "height"}
 
 type record struct {
 	Kind  string            `json:"kind"`
